@@ -45,7 +45,12 @@ def array_support(func):
                 vals.append(iterator(v, *args[1:], **kwargs))
 
             if isinstance(args[0], np.ndarray):
-                vals = np.array(vals)
+                # Python ints beyond int64 must stay exact: NumPy would promote a mix of them to float64
+                if any((isinstance(v, int) and not (-2**63 <= v < 2**63)) or \
+                       (isinstance(v, np.ndarray) and v.dtype == object) for v in vals):
+                    vals = np.array(vals, dtype=object)
+                else:
+                    vals = np.array(vals)
             return vals
         else:
             return func(*args, **kwargs)
@@ -54,6 +59,8 @@ def array_support(func):
 #%%
 @array_support
 def twos_complement_repr(val, nbits):
+    if isinstance(val, np.integer):
+        val = int(val)      # a NumPy integer cannot be combined with 1 << nbits for nbits >= 63
     if val < 0:
         val = (1 << nbits) + val
     else:
